@@ -22,7 +22,7 @@ def fmt_dt(d):
 
 class ProcResult(object):
     __slots__ = ('pid', 'argv', 'exit', 'out', 'err', 'exc', 'exc_frame', 'trace', 'nops',
-                 'nmut', 'killed', 'clock', 'replies', 'prompted')
+                 'nmut', 'killed', 'clock', 'replies', 'prompted', 'stdin_read')
 
     def as_log(self):
         return [self.pid, self.argv, self.exit, self.out.decode('utf-8', 'backslashreplace'),
@@ -118,6 +118,7 @@ class Sim(object):
         r.killed = p.killed
         r.clock = [v for (_pid, v) in P.CLOCK.readings[c0:]]
         r.replies = list(getattr(p.stdio.stdin, 'replies', []))
+        r.stdin_read = p.stdio.inb.tell() > 0 or bool(r.replies)
         self.log.append(r.as_log())
         self.ops_total += r.nops
         self.sims_total += 1
